@@ -16,6 +16,31 @@ INPUTS = {
     "empty": ('', dict(parse=0, lexer=0, parser=0)),
 }
 NAMES = {"": None, "parser": 1, "calc2": 1, "_": 0, "func": 0, "9lives": 0, "a-b": 0, "naïve": 1, "Pkg_1": 1, "string": 0, "x/y": 0, "..": 0}
+
+# The rule emerge documents for a usable package name: a Go identifier ([letter or _][letter, decimal digit or _]*, with
+# Unicode letters = categories L*, decimal digits = category Nd), not the blank identifier, not a keyword or predeclared name.
+# Names with characters of the neighbouring categories (other numbers, marks, connectors, symbols) exercise the boundary.
+import unicodedata
+
+
+def go_package_name(name):
+    if not name or name == "_":
+        return 0
+    for i, c in enumerate(name):
+        cat = unicodedata.category(c)
+        if c == "_" or cat.startswith("L"):
+            continue
+        if i > 0 and cat == "Nd":
+            continue
+        return 0
+    return 1
+
+
+UNICODE_NAMES = ["x\u00b2", "half\u00bd", "rev\u2167", "v\u0663", "\u0663v", "\u0394x", "\u4e2d\u6587", "a\u0301", "a\u203fb", "x\u2460", "n\u2075", "\u2167", "\u00aax", "x\u02b0",
+                 "a\u00b7b", "x\uff11", "a$", "a b", "\u01c5x", "x\u0e51", "x\u3007", "x\u16ee"]
+for _n in UNICODE_NAMES:
+    NAMES[_n] = go_package_name(_n)
+
 FILES = ["errors.go", "types.go", "stack.go", "input.go", "lexer.go", "parser.go"]
 
 
@@ -218,7 +243,7 @@ def run(ctx):
             stats["runs"] += 1
             stats["preexisting_paths_checked"] += len(before)
             actual.append(dict(scenario=s, args=args, exit=p.returncode, created=created, changed=changed, success=int("Successful!" in outtxt),
-                               trace=int("goroutine " in outtxt and "[running]" in outtxt), output=outtxt[-600:], outrel=os.path.relpath(outdir, box), files={c: after[c] for c in created}))
+                               trace=int("goroutine " in outtxt and "[running]" in outtxt), output=outtxt[-600:], idvalid=idvalid, chosen_name=eff, outrel=os.path.relpath(outdir, box), files={c: after[c] for c in created}))
             model_lines.append("perr=%d usage=%d help=%d version=%d out=%s name=%s file=%d input=%s parse=%d gname=%s lexer=%d parser=%d idvalid=%d outstate=%s pkgstate=%s" % (
                 perr, usage, int("-help" in args), int("-version" in args), hx("O"), hx(name if name and name != "-" else "") if name != "-" else hx(eff), have_file, inp_state,
                 spec_flags["parse"], hx(gname), spec_flags["lexer"], spec_flags["parser"], idvalid if idvalid is not None else 1, outstate, pkgstate))
@@ -254,6 +279,8 @@ def run(ctx):
         informational = any(x in a["args"] for x in ("-help", "-version", "-h")) and "-nosuch" not in a["args"]
         if (a["exit"] == 0 and a["success"] == 1) != (a["success"] == 1) or (a["success"] == 1 and not complete):
             ctx.add_violation("success was announced although the package was not fully written", dict(a, model=m))
+        if a.get("idvalid") == 0 and not informational and "-nosuch" not in a["args"] and (a["created"] or a["success"] or a["exit"] == 0):
+            ctx.add_violation("a name that is not a usable Go package identifier was not rejected before anything was created", dict(a, model=m))
         if a["exit"] == 0 and not a["success"] and not informational:
             ctx.add_violation("exit status 0 without success", dict(a, model=m))
         if a["exit"] != 0 and not a["output"].strip():
